@@ -350,6 +350,7 @@ theorem op_safe_to_affine (E : Env) (id : Nat) (hok : ObjOK E id) (ph : Phases C
 
 def seqEq (is : ObjInfo) (a : Coords) (io : ObjInfo) (b : Coords) : Res Out :=
   if !(is.curve.eqv io.curve) then .ok (.bool false)
+  else if isInfC a || isInfC b then .ok (.bool (isInfC a && isInfC b))
   else .ok (.bool (Curve.coordsEq is.curve.p a.1 a.2.1 a.2.2 b.1 b.2.1 b.2.2))
 
 def GoodC (E : Env) (id : Nat) (c : Coords) : Prop := c = E.c0 id ∨ c = E.cS id
@@ -357,18 +358,29 @@ def GoodC (E : Env) (id : Nat) (c : Coords) : Prop := c = E.c0 id ∨ c = E.cS i
 theorem eq_tail (E : Env) (s o : Nat) (a b : Coords) (ha : GoodC E s a) (hb : GoodC E o b) (ph : Phases Cell) :
     SafeE E (fun r => ∃ a b, GoodC E s a ∧ GoodC E o b ∧ r = seqEq (E.info s) a (E.info o) b) ph
       (if (!(E.info s).curve.eqv (E.info o).curve) = true then (Prog.ret (.ok (.bool false)) : P)
+       else if (a.2.1 == 0 || a.2.2 == 0 || b.2.1 == 0 || b.2.2 == 0) = true then
+         Prog.ret (.ok (.bool ((a.2.1 == 0 || a.2.2 == 0) && (b.2.1 == 0 || b.2.2 == 0))))
        else Prog.ret (.ok (.bool (Curve.coordsEq (E.info s).curve.p a.1 a.2.1 a.2.2 b.1 b.2.1 b.2.2)))) := by
   by_cases hc : (!(E.info s).curve.eqv (E.info o).curve) = true
   · simp only [hc, if_true]
     exact Safe.ret ⟨a, b, ha, hb, by simp [seqEq, hc]⟩
   · simp only [hc, if_false]
-    exact Safe.ret ⟨a, b, ha, hb, by simp [seqEq, hc]⟩
+    by_cases hi : (a.2.1 == 0 || a.2.2 == 0 || b.2.1 == 0 || b.2.2 == 0) = true
+    · simp only [hi, if_true]
+      have hi' : (isInfC a || isInfC b) = true := by simpa [isInfC, Bool.or_assoc] using hi
+      exact Safe.ret ⟨a, b, ha, hb, by simp only [seqEq, hc, if_false, hi', if_true]; rfl⟩
+    · simp only [hi, if_false]
+      have hi' : (isInfC a || isInfC b) = false := by
+        have : (a.2.1 == 0 || a.2.2 == 0 || b.2.1 == 0 || b.2.2 == 0) = false := by simpa using hi
+        simpa [isInfC, Bool.or_assoc] using this
+      exact Safe.ret ⟨a, b, ha, hb, by simp only [seqEq, hc, if_false, hi', Bool.false_eq_true]⟩
 
 /-- `P == Q` for two (possibly identical) shared points: the answer is the comparison of one allowed snapshot of each -/
 theorem op_safe_eq (E : Env) (s o : Nat) (ph : Phases Cell) :
     SafeE E (fun r => ∃ a b, GoodC E s a ∧ GoodC E o b ∧ r = seqEq (E.info s) a (E.info o) b) ph
       (toProg (mEq E.info) { self := s, other := o }) := by
-  simp only [toProg, mEq, den, loadA, loadB, Loc.obj, bindRes_ret, bindRes_ok, asCoords, Bool.false_eq_true, if_false, if_true]
+  simp only [toProg, mEq, den, loadA, loadB, Loc.obj, Loc.fresh, infoOf, bindRes_ret, bindRes_ok, asCoords, Bool.false_eq_true,
+    if_false, if_true]
   apply safe_read_coords
   · intro _ _
     apply safe_read_coords
